@@ -35,6 +35,10 @@ type clientTxnSys struct {
 	started             map[string]bool
 	rto                 time.Duration
 	slow                map[string]chan struct{} // first write of t is parked until released
+	slowRtx             map[string]chan struct{} // the next retransmission of t is parked until released ...
+	slowRtxAt           map[string]int           // ... it is this transmission
+	rtxFail             map[string]bool          // ... and then fails
+	closeDone           chan struct{}            // a Client.Close started while a retransmission was parked
 }
 
 // keptRes: a result handed to a caller; it stays that caller's (later traffic must not change it)
@@ -50,6 +54,7 @@ func newClientTxnSys(meta Meta, seed int64, _ any) (Sys, error) {
 	s := &clientTxnSys{
 		net: NewMemNet(), seed: seed, txid: map[string][stun.TransactionIDSize]byte{}, name: map[[stun.TransactionIDSize]byte]string{},
 		writes: map[string]int{}, failAt: map[string]int{}, started: map[string]bool{}, slow: map[string]chan struct{}{},
+		slowRtx: map[string]chan struct{}{}, slowRtxAt: map[string]int{}, rtxFail: map[string]bool{},
 	}
 	ms, _ := strconv.Atoi(meta.Extra["RTO"])
 	s.rto = time.Duration(ms) * time.Millisecond
@@ -71,6 +76,12 @@ func newClientTxnSys(meta Meta, seed int64, _ any) (Sys, error) {
 		}
 		if ch := s.slow[t]; ch != nil && s.writes[t] == 1 {
 			<-ch // the caller is inside conn.WriteTo until the harness releases it
+		}
+		if ch := s.slowRtx[t]; ch != nil && s.writes[t] == s.slowRtxAt[t] {
+			<-ch // the timer callback is inside conn.WriteTo (holding the table lock) until the harness releases it
+			if s.rtxFail[t] {
+				return errInjectedWrite
+			}
 		}
 
 		return nil
@@ -111,6 +122,10 @@ func (s *clientTxnSys) Close() {
 		close(ch)
 		delete(s.slow, t)
 	}
+	for t, ch := range s.slowRtx {
+		close(ch)
+		delete(s.slowRtx, t)
+	}
 	s.cl.Close()
 	_ = s.cconn.Close()
 	_ = s.server.Close()
@@ -138,6 +153,23 @@ func (s *clientTxnSys) Do(a map[string]any, wait func()) ([]Obs, error) {
 	case "WriteDone":
 		close(s.slow[t])
 		delete(s.slow, t)
+	case "RtxSlow": // the timer of t fires and its write parks
+		s.slowRtx[t] = make(chan struct{})
+		s.slowRtxAt[t] = s.writes[t] + 1
+		time.Sleep(time.Duration(toInt(a["d"])) * time.Millisecond)
+	case "CloseBlocked": // Close is called while the retransmission is inside the socket write
+		s.closeDone = make(chan struct{})
+		go func(done chan struct{}) {
+			s.cl.Close()
+			close(done)
+		}(s.closeDone)
+	case "RtxWriteDone":
+		ok, _ := a["ok"].(bool)
+		s.rtxFail[t] = !ok
+		if ch := s.slowRtx[t]; ch != nil {
+			close(ch)
+			delete(s.slowRtx, t)
+		}
 	case "Start", "StartSlow":
 		id := s.id(t)
 		s.failAt[t] = toInt(a["failAt"])
@@ -278,7 +310,7 @@ func (s *clientTxnSys) Check(e Edge, obs []Obs) []Mismatch {
 	tx, _ := ts["txn"].(map[string]any)
 	pending := 0
 	for _, v := range tx {
-		if r, _ := v.(map[string]any); r["phase"] == "pending" || (r["phase"] == "writing" && r["got"] == "none") {
+		if r, _ := v.(map[string]any); r["phase"] == "pending" || (r["phase"] == "writing" && r["got"] == "none") || r["phase"] == "rewriting" {
 			pending++
 		}
 	}
